@@ -104,6 +104,21 @@ def validate_program_outputs(pid, results, sources, out, tag, trace_cfg, trace_m
     return stats
 
 
+def tlaps_check(out, module, timeout=600):
+    """Unbounded extra: check a module's theorems with the TLA+ proof system (tlapm)."""
+    import re
+    import shutil
+    d = os.path.join(C.scratch(), "tlaps")
+    os.makedirs(d, exist_ok=True)
+    shutil.copy(os.path.join(C.SPEC, module), d)
+    rc, o = C.sh(["tlapm", "--cleanfp", module], cwd=d, timeout=timeout)
+    m = re.search(r"All (\d+) obligations? proved", o)
+    out.model_runs.append({"module": module, "tool": "tlapm", "obligations_proved": int(m.group(1)) if m else 0, "ok": bool(m)})
+    if not m:
+        raise C.ToolFailure("tlapm did not prove %s:\n%s" % (module, o[-1500:]))
+    return int(m.group(1))
+
+
 class RawScript:
     """A script for one of the small harnesses (sl, hash, fwd, ...): opaque text whose first line is
     'S <id> ...' and last line 'E'."""
